@@ -302,7 +302,7 @@ func (ck *checker) runUnits(b *batch, units []*unit) {
 			fmt.Printf("COVERAGE-GAP C14: %s/%s is refused with %q, expected %q\n", u.shape.Family, u.shape.Tag, trunc(ev.NeoErr, 120), u.shape.WantReject)
 			return
 		}
-		if u := units[0]; u.kind == "shape" && strings.HasPrefix(u.shape.Family, "literals") {
+		if u := units[0]; u.kind == "shape" && strictFamily(u.shape.Family) && !strings.HasPrefix(u.shape.Tag, "promoted-method/") { // (calls of promoted methods: a refusal is a legitimate answer of the compiler)
 			// every program of the composite-literal families is inside the documented dialect (the unchanged
 			// compiler accepts all of them): a refusal - or a panic of the compiler - is reported
 			s := u.shape
@@ -955,9 +955,13 @@ func (ck *checker) buildBatches(thorough bool, stats map[string]any) []*batch {
 	}
 	stats["programs_with_a_file_of_their_own"] = len(solos)
 	sort.Strings(fams)
+	sort.SliceStable(fams, func(i, j int) bool { return earlyFamily(fams[i]) && !earlyFamily(fams[j]) }) // round 4: the new families first
 	for _, f := range fams {
 		us := byFam[f]
 		per := 60
+		if strings.HasPrefix(f, "globals-use") || f == "embed" {
+			per = 100 // one package variable and one small function each
+		}
 		if f == "control" || f == "longjump" || f == "opassign" || f == "bools" {
 			per = 240 // small functions without helpers, none of which the compiler rejects
 		}
@@ -1175,6 +1179,18 @@ func TestCheck(t *testing.T) {
 		"initialize_and_deploy_frames":                  fstats.report(),
 		"manifest_method_sets_compared":                 int(nMetaSets.Get()),
 		"debug_info_ranges_checked":                     int(nMetaRanges.Get()),
+	}
+	for k, v := range r4Stats {
+		cov["r4_"+k] = v
+	}
+	for _, fam := range []string{"globals-use", "globals-use-kind", "globals-use-pkg", "globals-use-deploy", "meta-names", "meta-empty", "embed"} {
+		if st := ck.famStats["shape:"+fam]; st != nil {
+			k := "r4_" + strings.ReplaceAll(fam, "-", "_")
+			cov[k+"_functions_run_on_both_sides"] = st.functions
+			cov[k+"_calls"] = st.calls
+			cov[k+"_calls_agreeing"] = st.agree
+			cov[k+"_distinct_reference_outcomes"] = len(st.outcomes)
+		}
 	}
 	cov["composite_literal_sets"] = litStats
 	for k, v := range litStats { // (the merged evidence keeps scalar values only)
